@@ -29,13 +29,22 @@ func (P *projPoint) initXY(x, y *compatible.Int, c kyber.Group) {
 }
 
 func (P *projPoint) getXY() (x, y *mod.Int) {
-	P.normalize()
-	return &P.X, &P.Y
+	Q := P.normalized()
+	return &Q.X, &Q.Y
+}
+
+// normalized returns a copy of the point with Z=1. Reading a point (encoding,
+// printing, extracting data) must not write to it: points may be shared
+// between goroutines for reading.
+func (P *projPoint) normalized() *projPoint {
+	Q, _ := P.Clone().(*projPoint) //nolint:errcheck // Clone returns a *projPoint
+	Q.normalize()
+	return Q
 }
 
 func (P *projPoint) String() string {
-	P.normalize()
-	return P.c.pointString(&P.X, &P.Y)
+	Q := P.normalized()
+	return Q.c.pointString(&Q.X, &Q.Y)
 }
 
 func (P *projPoint) MarshalSize() int {
@@ -43,8 +52,8 @@ func (P *projPoint) MarshalSize() int {
 }
 
 func (P *projPoint) MarshalBinary() ([]byte, error) {
-	P.normalize()
-	return P.c.encodePoint(&P.X, &P.Y), nil
+	Q := P.normalized()
+	return Q.c.encodePoint(&Q.X, &Q.Y), nil
 }
 
 func (P *projPoint) UnmarshalBinary(b []byte) error {
@@ -125,8 +134,8 @@ func (P *projPoint) Pick(rand cipher.Stream) kyber.Point {
 
 // Extract embedded data from a point group element
 func (P *projPoint) Data() ([]byte, error) {
-	P.normalize()
-	return P.c.data(&P.X, &P.Y)
+	Q := P.normalized()
+	return Q.c.data(&Q.X, &Q.Y)
 }
 
 // Add two points using optimized projective coordinate addition formulas.
